@@ -268,8 +268,9 @@ class FnCtx:
 
         def walk(e):
             if isinstance(e, (tuple, list)):
-                if len(e) >= 3 and e[0] == 'call' and e[1] in (('id', 'ncalls'), ('id', 'lastseq')) and e[2] and e[2][0][0] == 'id':
-                    out.add(e[2][0][1])
+                if len(e) >= 3 and e[0] == 'call' and e[1] in (('id', 'ncalls'), ('id', 'lastseq')) and e[2] and e[2][0][0] in ('id', 'str'):
+                    pat = e[2][0][1]
+                    out.add(pat.decode() if isinstance(pat, bytes) else pat)
                 for x in e:
                     walk(x)
         c = self.contract
